@@ -254,6 +254,25 @@ func Base() (map[string]*pbfgen.File, []string) {
 		[]string{"X-three-blocks", "Y-one-block-mixed", "Z-no-metadata", "W-large-string-table"}
 }
 
+// Params is the three-block file plus the mixed block of Y, every block with its own
+// granularity, offsets and date granularity (none the default), written after the groups
+// (the canonical order: they have the higher field numbers) or, every other block, first.
+func Params() *pbfgen.File {
+	y, _ := Base()
+	f := &pbfgen.File{Header: pbfgen.StdHeader()}
+	blocks := append(append([]pbfgen.Block{}, threeBlocks().Blocks...), y["Y-one-block-mixed"].Blocks[0])
+	grans := []int32{1000, 10, 100000, 7}
+	dates := []int32{2000, 500, 60000, 1}
+	for i, b := range blocks {
+		g, d := grans[i%4], dates[i%4]
+		la, lo := int64(500000000+i), int64(-100000000*int64(i+1))
+		b.Granularity, b.DateGranularity, b.LatOffset, b.LonOffset = &g, &d, &la, &lo
+		b.ParamsFirst = i%2 == 1
+		f.Blocks = append(f.Blocks, b)
+	}
+	return f
+}
+
 // Wide3 is the three-block file with 16400 unused string-table entries first:
 // every string id needs a 3-byte varint.
 func Wide3() *pbfgen.File { return withExtraStrings(threeBlocks(), 16400) }
